@@ -283,7 +283,7 @@ def setup_case(case, workdir, seed):
         if inp == "key_file_unreadable":
             kf = os.path.join(workdir, "does-not-exist.pri")
         else:
-            with open(kf, "w") as f:
+            with open(os.open(kf, os.O_WRONLY | os.O_CREAT | os.O_TRUNC, 0o600), "w") as f:      # a private key file: owner-only, as an operator would keep it
                 f.write(("not hex at all\n" if inp == "key_file_not_hex" else
                          (r.choice([key_seed.hex()[:-2], key_seed.hex() + "00", "zz" * 32, ""]) if inp == "bad_key"
                           else r.choice([key_hex, key_hex.upper(), "  " + key_hex + "\n"]))))
